@@ -1,0 +1,67 @@
+use std::{marker::PhantomData, ptr};
+
+/// An owning iterator over `len` consecutive initialized elements starting at `ptr`:
+/// yields the elements by moving them out and drops the ones that are not yielded when it is dropped.
+///
+/// The memory itself is not owned: it belongs to the consumed collection of the concurrent iterator,
+/// which never touches the positions handed over to a `TakenSlice` again.
+pub(crate) struct TakenSlice<T> {
+    ptr: *mut T,
+    len: usize,
+    idx: usize,
+    phantom: PhantomData<T>,
+}
+
+impl<T> TakenSlice<T> {
+    /// # Safety
+    ///
+    /// The `len` positions starting at `ptr` must be initialized, valid for the lifetime of the created
+    /// iterator, and must not be read or dropped by anyone else.
+    pub(crate) unsafe fn new(ptr: *mut T, len: usize) -> Self {
+        Self {
+            ptr,
+            len,
+            idx: 0,
+            phantom: PhantomData,
+        }
+    }
+}
+
+impl<T> Iterator for TakenSlice<T> {
+    type Item = T;
+
+    #[inline]
+    fn next(&mut self) -> Option<Self::Item> {
+        match self.idx < self.len {
+            true => {
+                let value = unsafe { self.ptr.add(self.idx).read() };
+                self.idx += 1;
+                Some(value)
+            }
+            false => None,
+        }
+    }
+
+    #[inline]
+    fn size_hint(&self) -> (usize, Option<usize>) {
+        let len = self.len - self.idx;
+        (len, Some(len))
+    }
+}
+
+impl<T> ExactSizeIterator for TakenSlice<T> {}
+
+impl<T> Drop for TakenSlice<T> {
+    fn drop(&mut self) {
+        let remaining = ptr::slice_from_raw_parts_mut(
+            unsafe { self.ptr.add(self.idx) },
+            self.len - self.idx,
+        );
+        self.idx = self.len;
+        unsafe { ptr::drop_in_place(remaining) };
+    }
+}
+
+unsafe impl<T: Send> Send for TakenSlice<T> {}
+
+unsafe impl<T: Sync> Sync for TakenSlice<T> {}
